@@ -716,6 +716,7 @@ func c18Replay(e *core.Env, data json.RawMessage) (bool, string) {
 func init() {
 	core.Register(&core.Check{
 		ID: "C18", Level: "fault_enumeration", Run: c18Run, Replay: c18Replay,
+		Added:       "six files with the first one broken under GOMAXPROCS 1, 2, 3, 16 (every other file must be rewritten); infer --inplace with training data that cannot be loaded (target bit-identical, exit != 0)",
 		QuickBudget: 100 * time.Second, ThoroughBudget: 14 * time.Minute,
 		Rule: "scenarios: format on a tiny / 1 KiB / 40 KiB file, on an unparseable file, on three files of which the middle one is unparseable, and infer --inplace, all on the real uninstrumented binary; faults: RLIMIT_FSIZE = k for every byte offset k of the new content (40 KiB: every 97th offset plus page/buffer boundaries in the quick tier, every offset in the thorough tier), every file-system syscall index x {ENOSPC, EIO, EACCES}, SIGKILL at every file-system syscall index, and an explicit-state power-loss model over the recorded syscall trace (every prefix x every subset of unsynced writes); " +
 			"oracle: every target file holds its complete old or complete new bytes; distinct = distinct (scenario, fault); non-trivial = faults that can fire inside the write path",
